@@ -4,7 +4,7 @@
 // Entries (see spec_C11.py for the shard parameters of each):
 //   harness_c11_edge_nobu  add_edge, vertex bottom-up incidences OFF: both vertices FREE symbolic
 //   harness_c11_edge_bu    add_edge, all bottom-up incidences on: ordered vertex pair by selector dispatch
-//   harness_c11_face_sym   add_face(list, true): list length by selector (1..5), every element a FREE symbolic halfedge; edge bottom-up OFF
+//   harness_c11_face_sym   add_face(list, true): list length 1..5 (shard parameter), every element a FREE symbolic halfedge; edge bottom-up OFF
 //   harness_c11_face_bu    add_face(list, true), all bottom-up on: concrete list families by selector dispatch
 //   harness_c11_cell       add_cell(list, true), all bottom-up on: concrete list families by selector dispatch
 //   harness_c11_cell_sym   add_cell(list, true): EXPERIMENT, free symbolic elements (no verdict in 300 s: not part of any job)
@@ -103,10 +103,10 @@ static void face_check(const TopologyKernel &m, const Snap &s0, const int *h, in
   C11_COUNTS(m, s1);
   g_done = true;
 }
-static void case_face_sym(unsigned i) {   // list length i + 1
+static void case_face_sym(unsigned i) {   // list length = v_param(1) (one case per query: 35 s .. 150 s of symbolic execution)
   unsigned base = v_param(0);
-  const int n = (int)i + 1;
-  if (n > 5) return;
+  const int n = (int)v_param(1);
+  if (i != 0 || n < 1 || n > 5) return;
   TopologyKernel m;
   build_base(m, base);
   m.enable_edge_bottom_up_incidences(false);   // the accepted path would index incident_hfs_per_he_ with the symbolic handles
@@ -253,7 +253,7 @@ static inline void run_entry(unsigned e, unsigned ncases) {
 }
 extern "C" void harness_c11_edge_nobu() { run_entry(E_EDGE_NOBU, 2); }
 extern "C" void harness_c11_edge_bu() { run_entry(E_EDGE_BU, CASES_PER_QUERY); }
-extern "C" void harness_c11_face_sym() { run_entry(E_FACE_SYM, 5); }
+extern "C" void harness_c11_face_sym() { run_entry(E_FACE_SYM, 1); }
 extern "C" void harness_c11_face_bu() { run_entry(E_FACE_BU, CASES_PER_QUERY); }
 extern "C" void harness_c11_cell() { run_entry(E_CELL, CASES_PER_QUERY); }
 extern "C" void harness_c11_cell_sym() { run_entry(E_CELL_SYM, 6); }
